@@ -75,6 +75,15 @@ fn exec_dispatch(ctx: &mut Ctx, ev: &Ev) -> Option<Vec<u64>> {
 
 /// run on both types; when `feed_back`, canonize the representative again (input already canonical)
 fn both(ctx: &mut Ctx, n: usize, g: Group, f: &[u64], tag: &str, feed_back: bool) {
+    both_rng(ctx, n, g, f, tag, feed_back, None)
+}
+
+/// With a generator, the representative is also fed back after a *single kind* of group action applied
+/// by the model: only a permutation, only input complementations, only the output complementation.  The
+/// walk then reaches the representative at very particular steps (end of a flip round, first flip round,
+/// ...), which random inputs hit with probability 1/2^n or less.
+fn both_rng(ctx: &mut Ctx, n: usize, g: Group, f: &[u64], tag: &str, feed_back: bool, rng: Option<&mut Rng>) {
+    let mut derived: Vec<(String, Vec<u64>)> = Vec::new();
     for ty in ["Lut", "LutN"] {
         if ty == "LutN" && n > tbl::MAX_STATIC {
             continue;
@@ -84,6 +93,38 @@ fn both(ctx: &mut Ctx, n: usize, g: Group, f: &[u64], tag: &str, feed_back: bool
             if feed_back && r[..] != f[..] {
                 let ev2 = Ev::new("certificate", ty, n).st(g.name()).st(tag).tab(&r);
                 exec_dispatch(ctx, &ev2);
+            }
+            if ty == "Lut" {
+                derived.push(("repr".into(), r));
+            }
+        }
+    }
+    if let (Some(rng), Some((_, r))) = (rng, derived.first()) {
+        let mr = Model::from_blocks(n, r);
+        let id: Vec<usize> = (0..n).collect();
+        let mut images: Vec<(&str, Model)> = Vec::new();
+        if g != Group::N && n >= 2 {
+            let mut p = id.clone();
+            rng.shuffle(&mut p);
+            images.push(("pure-permutation", mr.apply_npn(&p, 0, false)));
+            let (i, j) = (rng.below(n), rng.below(n));
+            images.push(("pure-transposition", mr.swap(i, j)));
+        }
+        if g != Group::P {
+            images.push(("pure-output-complement", mr.not()));
+            if n >= 1 {
+                images.push(("pure-input-flip", mr.flip(rng.below(n))));
+                images.push(("pure-input-flips", mr.apply_npn(&id, rng.below(1 << n), false)));
+            }
+        }
+        for (kind, m) in images {
+            let b = m.to_blocks();
+            for ty in ["Lut", "LutN"] {
+                if ty == "LutN" && n > tbl::MAX_STATIC {
+                    continue;
+                }
+                ctx.cell_only(&format!("directed|{}|{}|{}|n={}", kind, g.name(), ty, n));
+                exec_dispatch(ctx, &Ev::new("certificate", ty, n).st(g.name()).st(kind).tab(&b));
             }
         }
     }
@@ -102,7 +143,7 @@ fn budget(g: Group, n: usize, thorough: bool) -> usize {
         _ => 0,
     };
     if thorough {
-        q * 20
+        q * 60
     } else {
         q
     }
@@ -137,7 +178,7 @@ fn main() {
                 if (x as usize) % chunks != c {
                     continue;
                 }
-                // every function is an input, so every representative is also met as an input
+                // every function is an input, so every representative (and every image of it) is also met as an input
                 both(ctx, n, g, &[x], "all", false);
             }
             ctx.exhaustive.insert(format!("all functions, group {}, n={}", g.name(), n), true);
@@ -155,7 +196,7 @@ fn main() {
                     }
                 };
                 let f = gen::gen(fam, n, &mut rng);
-                both(ctx, n, g, &f, tag, true);
+                both_rng(ctx, n, g, &f, tag, true, Some(&mut rng));
             }
         }
     });
@@ -174,6 +215,12 @@ fn main() {
                 }
                 if n >= 5 {
                     required.push(cell("nontrivial-stabiliser-by-construction", g, ty, n));
+                    for kind in ["pure-permutation", "pure-transposition", "pure-output-complement", "pure-input-flip", "pure-input-flips"] {
+                        let applies = if kind.starts_with("pure-perm") || kind.starts_with("pure-trans") { g != Group::N } else { g != Group::P };
+                        if applies {
+                            required.push(format!("directed|{}|{}|{}|n={}", kind, g.name(), ty, n));
+                        }
+                    }
                 }
             }
         }
